@@ -19,3 +19,9 @@ Lemma c12_fp_wrapper : solver_parallel_wrapper_body = solver_parallel_wrapper_bo
 Proof. vm_compute. reflexivity. Qed.
 Lemma c12_no_copy_in_wrapper_goroutine : goroutine_calls "Copy" solver_parallel_wrapper_body = false.
 Proof. vm_compute. reflexivity. Qed.
+
+(* a single parallel run spans several cycles: what the next cycle starts from
+   is decided by the hand-off between the workers and the collecting goroutine
+   (same fingerprint as C13's) *)
+Lemma c12_fp_handoff : project keep_handoff parallel_solve_body = project keep_handoff parallel_solve_body_ref.
+Proof. vm_compute. reflexivity. Qed.
